@@ -2,7 +2,7 @@ SPECIFICATION Spec
 CONSTANTS
   RC = 2
   WC = 3
-  MaxLen = 7
+  MaxLen = 4
   Mems = {0}
   Addrs = {0}
   NReq = 3
@@ -10,7 +10,7 @@ CONSTANTS
   NDup = 1
   MaxUid = 16
   Bug = "none"
-  ErrSts = {1, 2}
+  ErrSts = {1}
   HostSts = {1}
   DeckMems = {}
   SendFail = TRUE
